@@ -40,7 +40,8 @@ GLine(c) ==
     /\ UNCHANGED vars
 GCInit == FIdle /\ LInit /\ SInit /\ hist = <<>>
 GCSpec == GCInit /\ [][\E c \in Classes : GLine(c)]_gvars
-EmitC == IF hist = <<>> THEN PrintT(<<"CAT", ToJson([c \in Classes |-> Cat[c]])>>)
+EmitC == IF hist = <<>> THEN PrintT(<<"CAT", ToJson([c \in Classes \cup {"SECoPClasses"} |->
+                                               IF c = "SECoPClasses" THEN SECoPClasses ELSE Cat[c]])>>)
          ELSE PrintT(<<"BEH", ToJson(hist)>>)
 
 (* ---- codec triples ---- *)
